@@ -543,4 +543,91 @@ theorem one_writer {p : Pool} (h : WInv p) (t : Tid) :
         | some x => rw [hwt] at hu; simp at hu; exact hu.2
       simp [List.filter_cons, hw, ih hu2]
 
+/-! ### Writers.Sess: a buffer's bytes reach a data file at most once -/
+
+theorem Sess.append_log (s : Sess) (wb : WBuf) :
+    (s.append wb).log = if wb ∈ s.log then s.log else s.log ++ [wb] := by
+  unfold Sess.append Sess.nonEmpty
+  by_cases hc : wb ∈ s.log <;> simp [hc]
+
+theorem Sess.append_nodup (s : Sess) (wb : WBuf) (h : s.log.Nodup) : (s.append wb).log.Nodup := by
+  rw [Sess.append_log]
+  by_cases hc : wb ∈ s.log
+  · simp [hc, h]
+  · simp only [hc, ↓reduceIte]
+    rw [List.nodup_append]
+    refine ⟨h, by simp, ?_⟩
+    intro a ha b hb
+    simp at hb
+    subst hb
+    intro e; subst e; exact hc ha
+
+theorem Sess.mmapFile_log (s : Sess) (wb : WBuf) : (s.mmapFile wb).log = s.log := by
+  unfold Sess.mmapFile; split <;> rfl
+
+theorem Sess.foldl_mmapFile_log (l : List WBuf) (s : Sess) :
+    (l.foldl (fun a wb => a.mmapFile wb) s).log = s.log := by
+  induction l generalizing s with
+  | nil => rfl
+  | cons x xs ih => simp only [List.foldl_cons]; rw [ih, Sess.mmapFile_log]
+
+theorem Sess.foldl_append_nodup (l : List WBuf) (s : Sess) (h : s.log.Nodup) :
+    (l.foldl (fun a wb => a.append wb) s).log.Nodup := by
+  induction l generalizing s with
+  | nil => exact h
+  | cons x xs ih => simp only [List.foldl_cons]; exact ih _ (Sess.append_nodup s x h)
+
+theorem Sess.step_nodup {s s' : Sess} {op : SOp} (h : s.log.Nodup) (hs : s.step op = some s') :
+    s'.log.Nodup := by
+  cases op with
+  | start wb => simp only [Sess.step, Option.some.injEq] at hs; subst hs; exact h
+  | fin wb =>
+    simp only [Sess.step, Option.some.injEq] at hs; subst hs
+    unfold Sess.recEnd; rw [Sess.mmapFile_log]; exact h
+  | pick i =>
+    simp only [Sess.step, Sess.pick] at hs
+    split at hs
+    · cases hs
+    · cases hp : s.pool.pick i false with
+      | none => simp [hp] at hs
+      | some p => simp [hp] at hs; subst hs; exact h
+  | write i =>
+    simp only [Sess.step, Sess.write] at hs
+    split at hs
+    · cases hs
+    · simp only [Option.some.injEq] at hs; subst hs
+      exact Sess.append_nodup _ _ h
+  | splice i =>
+    simp only [Sess.step, Sess.splice] at hs
+    cases hp : s.pool.splice i with
+    | none => simp [hp] at hs
+    | some p => simp [hp] at hs; subst hs; exact h
+  | stop =>
+    simp only [Sess.step, Sess.stop] at hs
+    split at hs
+    · cases hs
+    · simp only [Option.some.injEq] at hs; subst hs; exact h
+  | flushAll =>
+    simp only [Sess.step] at hs
+    split at hs
+    · simp only [Option.some.injEq] at hs; subst hs
+      unfold Sess.flushAll; rw [Sess.foldl_mmapFile_log]; exact h
+    · cases hs
+  | remaining =>
+    simp only [Sess.step] at hs
+    split at hs
+    · simp only [Option.some.injEq] at hs; subst hs
+      unfold Sess.remaining; exact Sess.foldl_append_nodup _ _ h
+    · cases hs
+
+theorem Sess.run_nodup (ops : List SOp) (s : Sess) (h : s.log.Nodup) : (s.run ops).log.Nodup := by
+  induction ops generalizing s with
+  | nil => exact h
+  | cons op ops ih =>
+    simp only [Sess.run]
+    apply ih
+    cases hs : s.step op with
+    | none => simpa using h
+    | some s' => simpa using Sess.step_nodup h hs
+
 end Uft.Writers
